@@ -18,3 +18,11 @@ pub proof fn axiom_split(s: Seq<char>, i: int)
     requires is_boundary(s, i)
     ensures take_bytes(s, i) + skip_bytes(s, i) == s, blen(take_bytes(s, i)) == i
 {}
+/// the byte at offset i of the text's UTF-8 encoding
+pub uninterp spec fn byte_at(s: Seq<char>, i: int) -> Option<u8>;
+/// `s.as_bytes().get(i)`
+#[verifier::external_body]
+pub fn vx_byte_at(s: &str, i: usize) -> (r: Option<u8>) ensures r == byte_at(s@, i as int) { unimplemented!() }
+/// `o == Some(&b'-')`
+#[verifier::external_body]
+pub fn vx_is_dash(o: Option<u8>) -> (r: bool) ensures r == (o == Some(0x2du8)) { unimplemented!() }
